@@ -1,3 +1,4 @@
+from common import guarded
 """C10  Bias-corrected sample statistics follow their textbook definitions.  Engine RS."""
 import terms as tm
 from terms import T, UINT, REAL, TRUE, FALSE, And, Not, Or, real
@@ -73,6 +74,8 @@ def run(tier, seed):
     orders = [4, 5, 6, 8, 10]
     for N in orders:
         moments_bias(pr, N)
+    import rs_crosscheck
+    pr.obs += guarded("C10.engine.rs_crosscheck", lambda: rs_crosscheck.crosscheck("C10", ['Variance', 'Kurtosis', 'Moments6']))
     meta = {
         "level": "proof",
         "checker_cmd": "./check C10 (rsx -> RS executor -> sympy / z3 QF_NRA)",
